@@ -2,10 +2,11 @@
    (Ring/Conc.v states the same of every interleaving of the two threads' atomic steps; this file is about the
    operations of Seq.v themselves, which Trans/EquivRing.v proves equal to the translated methods of
    service/buffer.go - so the chain source -> model -> property is closed by proof for the sequential reading.)
-   Histories: Write, the writeMessage path (reserve, fill, commit - or Write when the window wraps), Read,
-   ReadPeek, ReadWait, ReadCommit, Close and the state query, in any order and with any arguments; the raw
-   reserve / fill / commit calls are covered through the writeMessage path only (a client that fills without a
-   reservation can of course overwrite the ring). *)
+   Histories: Write, the writeMessage path (reserve, fill, commit - or Write when the window wraps), a round of
+   ReadFrom (reserve a block, fill part of the window, commit that part), Read, ReadPeek, ReadWait, ReadCommit,
+   Close and the state query, in any order and with any arguments; the raw reserve / fill / commit calls are covered
+   through these two producer paths only (a client that fills without a reservation can of course overwrite the
+   ring). *)
 From Base Require Import Tactics Bytes.
 From Ring Require Import Seq ConcSpec.
 Open Scope Z_scope.
@@ -15,9 +16,24 @@ Record gst := mkG { g_ring : ring; g_stream : list N; g_consumed : list N }.
 
 Definition ginit (sz : Z) : gst := mkG (ring_new sz) [] [].
 
+(* one round of ReadFrom: reserve a block of blk bytes, let the reader put as many bytes of p as the window takes, commit
+   exactly those - a composite of the model's own operations (WriteWait, the fill, WriteCommit) *)
+Definition r_read_from_round (r : ring) (blk : Z) (p : list N) : ring * rres (list N) :=
+  match r_write_wait r blk with
+  | (r1, ROk (_, l, _)) =>
+      let p' := firstn (Z.to_nat l) p in
+      match r_write_commit (r_fill r1 p') (Z.of_nat (length p')) with
+      | (r2, ROk _) => (r2, ROk p')
+      | (r2, REof) => (r2, REof)
+      | (r2, _) => (r2, RBlock)
+      end
+  | (r1, REof) => (r1, REof)
+  | (r1, _) => (r1, RBlock)
+  end.
+
 Definition allowed (op : list N) : bool :=
   match op with
-  | 1%N :: _ | [5%N; _] | [6%N; _] | [7%N; _] | [8%N; _] | [9%N] | [10%N] | 11%N :: _ => true
+  | 1%N :: _ | [5%N; _] | [6%N; _] | [7%N; _] | [8%N; _] | [9%N] | [10%N] | 11%N :: _ | 12%N :: _ :: _ => true
   | _ => false
   end.
 
@@ -33,6 +49,10 @@ Definition gstep (g : gst) (op : list N) : gst * option (list N) :=
                  | (r', ROk _) => (mkG r' (g_stream g ++ p) (g_consumed g), None)
                  | (r', _) => (mkG r' (g_stream g) (g_consumed g), None)
                  end
+  | 12%N :: blk :: p => match r_read_from_round r (Z.of_N blk) p with
+                        | (r', ROk p') => (mkG r' (g_stream g ++ p') (g_consumed g), None)
+                        | (r', _) => (mkG r' (g_stream g) (g_consumed g), None)
+                        end
   | [5%N; n] => match r_read r (Z.of_N n) with
                 | (r', ROk l) => (mkG r' (g_stream g) (g_consumed g ++ l), Some l)
                 | (r', _) => (mkG r' (g_stream g) (g_consumed g), None)
@@ -52,8 +72,10 @@ Definition gstep (g : gst) (op : list N) : gst * option (list N) :=
   | _ => (mkG (fst (r_step r op)) (g_stream g) (g_consumed g), None)
   end.
 
-(* the ghost run follows the model run: same ring states *)
-Definition gstep_ring : Prop := forall g op, allowed op = true -> g_ring (fst (gstep g op)) = fst (r_step (g_ring g) op).
+(* the ghost run follows the model run: same ring states (for the operations the model's script interpreter knows; the
+   ReadFrom round is defined from them above) *)
+Definition gstep_ring : Prop := forall g op, allowed op = true -> (forall blk p, op <> 12%N :: blk :: p) ->
+  g_ring (fst (gstep g op)) = fst (r_step (g_ring g) op).
 
 Fixpoint grun (g : gst) (ops : list (list N)) : gst :=
   match ops with
